@@ -13,7 +13,7 @@ func init() {
 	register(&PropDef{
 		ID:    "C39",
 		Pkgs:  []string{prio},
-		Claim: "Decides the structural part: in the priority scan a child is switched to exactly on the arms 'not started', READY, IDLE, 'CONNECTING with a live init timer' or 'last priority' (each arm leads to the switch, and the arm where none holds cannot reach it), the scan stops at the first such child, the state pushed to the parent is the state of that same child and is pushed whenever the child in use changes or the child in use is the one that updated; switching stops every lower priority on every path (also when the child is already in use) before anything else, from index priority+1 to the end; a child is started only through the switch; the init timer is stopped on READY/IDLE/TRANSIENT_FAILURE and restarted on CONNECTING only when no failure was reported since and the previous state was not CONNECTING; updates of unknown or not-started children are dropped; the child-in-use name and child bookkeeping are accessed under the balancer mutex.",
+		Claim: "Decides the structural part: in the priority scan a child is switched to exactly on the arms 'not started', READY, IDLE, 'CONNECTING with a live init timer' or 'last priority' (each arm leads to the switch, and the arm where none holds cannot reach it), the scan stops at the first such child, the state pushed to the parent is the state of that same child and is pushed whenever the child in use changes or the child in use is the one that updated; switching stops every lower priority on every path (also when the child is already in use) before anything else, from index priority+1 to the end; a child is started only through the switch; the init timer is stopped on READY/IDLE/TRANSIENT_FAILURE and restarted on CONNECTING only when no failure was reported since and the previous state was not CONNECTING; updates of unknown or not-started children are dropped; the child-in-use name and child bookkeeping are accessed under the balancer mutex. Only existing children are selected or stopped, and the stop walk over lower priorities is never left early.",
 		NotDecided:  []string{"complete failover histories (timer expirations x child updates x config updates) against a model", "behaviour of the balancer group that actually builds/closes children"},
 		Assumptions: []string{"balancergroup Add/Remove build and close the child policy (outside this property's anchors)"},
 		Technique:   "static analysis: refusing-arm unreachability and per-disjunct must-pass-through on the go/ssa CFG, value identity of call arguments, loop-index initial-value shape, who-may-call/write, must-lockset",
